@@ -205,6 +205,13 @@ def main():
         except Exception as e:
             open(os.path.join(a.out, "Flow.v"), "w").write("(* GENERATED: flow extraction failed: %r *)\n" % (e,))
             status["Flow"] = {"ok": False, "errors": ["flow extraction crashed: %r" % (e,)]}
+    if want("sites") or want("orders"):
+        # the memory order each ATM_* macro requests in /repo's real atomic headers and in the harness header (C03_macro_orders_agree)
+        p = subprocess.run([sys.executable, os.path.join(HERE, "orders.py"), a.repo, os.path.join(a.out, "Orders.v")],
+                           capture_output=True, text=True)
+        status["Orders"] = {"ok": p.returncode == 0,
+                            "errors": [] if p.returncode == 0 else [(p.stdout + p.stderr)[-2000:]],
+                            "tables": p.stdout.splitlines()}
     # template instantiation: proofs that are stated once and checked against both builds
     tdir = os.path.join(os.path.dirname(HERE), "coq", "templates")
     if os.path.isdir(tdir):
